@@ -245,7 +245,10 @@ def check_expansion(ctx, FB, exp, md_rows, rows):
                     v0, h0, d0 = snapshot(u)
                     m.call_fn(fn["path"], [u] + args)
                     v1, h1, d1 = snapshot(u)
-                except (Unsupported, Panic) as e:
+                except Panic as e:
+                    ctx.violate("um.accessors", key + "|panic", f"{exp} Update{kind}::set_{field}({', '.join(show(a) for a in args)}) panics: {e} (in release builds the value wraps and the accessor addresses the words of a different slot)", fn["file"], fn["line"])
+                    break
+                except Unsupported as e:
                     ctx.violate("um.accessors", key + "|shape", f"{exp} Update{kind}::set_{field}: shape not recognised — review ({e})", fn["file"], fn["line"])
                     break
                 interpreted += 1
